@@ -544,7 +544,10 @@ def run_c11(ctx, spec):
     evals, distinct = 0, set()
     cmds_outs = []
     cap = 1500 if tier == "quick" else 20000
-    for name, sd, scenario in scenario_pool(rng, nscen, dict(multi_route_frac=0.35)):
+    pool11 = scenario_pool(rng, nscen, dict(multi_route_frac=0.35))
+    sdm_ = scen.many_hosts_sd(rng)          # more than 256 hosts: row numbers that do not fit one byte
+    pool11.append(("random-many-hosts", sdm_, scen.sd_to_scenario(sdm_)))
+    for name, sd, scenario in pool11:
         where = dict(scenario=sd)
         try:
             sdw = scen.sd_wire(sd)
@@ -961,7 +964,7 @@ def run_c13(ctx, spec):
     evals, distinct = 0, set()
     cmds, expect = [], []
     for _ in range(ncases):
-        gen = dyn.CaseGen(rng, {})
+        gen = dyn.CaseGen(rng, dict(loaded_frac=0.3, many_hosts_frac=0.0))
         name, sd, scenario = gen.pick_scenario()
         modes = [rng.randrange(2), rng.randrange(2), rng.randrange(2)]
         sdw = scen.sd_wire(sd)
